@@ -135,6 +135,27 @@ func TestGovcReplay(t *testing.T) {
 			}
 		}
 	}
+	// termination requested while alerts are queued: a Pop that hands out nothing must not take the
+	// wake-up token with it — the next Pop (termination not requested) must still be woken. The
+	// choice between the two ready channels is the runtime's, so the history is repeated.
+	lost := 0
+	for k := 0; k < 200 && lost == 0; k++ {
+		q := NewQueue(nil, nil, 4, 2, labels.EmptyLabels(), nil, nil)
+		q.Push([]*notifier.Alert{{Labels: labels.FromStrings("id", "1")}, {Labels: labels.FromStrings("id", "2")}})
+		closed := make(chan struct{})
+		close(closed)
+		if got := q.Pop(closed); got != nil {
+			continue // the batch was handed out: nothing to check in this repetition
+		}
+		done := make(chan []*notifier.Alert, 1)
+		go func() { done <- q.Pop(nil) }()
+		select {
+		case <-done:
+		case <-time.After(300 * time.Millisecond):
+			lost++
+			msgs = append(msgs, fmt.Sprintf("repetition %d: 2 alerts queued, a Pop with termination requested returned nothing, and the next Pop is never woken (queue still holds %d alerts): the wake-up token was taken by the Pop that handed out nothing", k, q.Len()))
+		}
+	}
 	if len(msgs) > 0 {
 		fmt.Println("REPLAY: reproduced:", strings.Join(msgs, "; "))
 		t.Fail()
